@@ -122,6 +122,71 @@ def sequential(P, gr, reqs, limit=None):
     return out
 
 
+def sequential_parse(P, gr, reqs):
+    cls, rules = G.build(P, gr)
+    out = {}
+    for q in set(reqs):
+        P.ParseCache.clear_caches()
+        out[q] = lib.py_parse(P, rules[0], q[1], q[2])
+    return out
+
+
+def generator_case(P, gr, reqs, budget, order_seed, seq, seq_parse):
+    """several `lparse` listings of one grammar advanced alternately (order from order_seed), each abandoned after budget[t]
+    matches; then the same requests again - while the abandoned listings are still suspended, and after they were
+    dropped.  Returns ([(kind, message)], number of requests evaluated)."""
+    rng = random.Random(order_seed)
+    probs = []
+    n_ev = 0
+    cls, rules = G.build(P, gr)
+    gens = []
+    for q in reqs:
+        try:
+            gens.append(rules[0].lparse(q[1], q[2]))
+        except Exception:  # noqa
+            gens.append(iter(()))
+    collected = [[] for _ in reqs]
+    alive = list(range(len(reqs)))
+    while alive:
+        t = rng.choice(alive)
+        if len(collected[t]) >= budget[t]:
+            alive.remove(t)   # abandoned part-way
+            continue
+        try:
+            collected[t].append(lib.match_dump(P, next(gens[t])))
+        except StopIteration:
+            alive.remove(t)
+        except (P.ParseError, P.GrammarError) as e:
+            alive.remove(t)
+            # a listing may only end in the exception its sequential run ends in
+            want_cls = "gerr" if isinstance(e, P.GrammarError) else "fail"
+            if seq[reqs[t]].split(" ", 1)[0] != want_cls:
+                probs.append(("generators-exc", "interleaved listing %s(%r) raised %s after %d matches while other listings were suspended; sequential %r"
+                              % (reqs[t][0], reqs[t][1], type(e).__name__, len(collected[t]), seq[reqs[t]][:100])))
+    for phase_name in ("while earlier listings are suspended", "after interleaved/abandoned generators"):
+        for q in reqs:
+            got = c08.request(P, rules[0], *q)
+            n_ev += 1
+            if got != seq[q]:
+                probs.append(("generators", "%s: %s(%r) got %r, sequential %r" % (phase_name, q[0], q[1], got[:100], seq[q][:100])))
+            want2 = seq_parse.get(q)
+            if want2 is not None:
+                got2 = lib.py_parse(P, rules[0], q[1], q[2])
+                n_ev += 1
+                if got2 != want2:
+                    probs.append(("generators", "%s: parse(%r) got %r, sequential %r" % (phase_name, q[1], got2[:100], want2[:100])))
+        gens = None     # the suspended listings are dropped (closed) here
+    # the prefix each generator did produce must be a prefix of the sequential listing
+    for q, col in zip(reqs, collected):
+        full = seq[q]
+        if col and full.startswith("ok"):
+            want = [x.strip() for x in full.split("|")[1:]]
+            gotp = [x[2:].strip() for x in col]
+            if gotp != want[: len(gotp)]:
+                probs.append(("generators-prefix", "interleaved generator yielded %r, sequential listing starts %r" % (gotp[:2], want[:2])))
+    return probs, n_ev
+
+
 def run(ctx):
     P = lib.import_repo()
     cc.proof_part(ctx)
@@ -234,47 +299,17 @@ def run(ctx):
         if seq is None:
             slow_skipped[0] += 1
             continue
-        cls, rules = G.build(P, gr)
-        gens = []
-        for q in reqs:
-            try:
-                gens.append(rules[0].lparse(q[1], q[2]))
-            except Exception:  # noqa
-                gens.append(iter(()))
-        collected = [[] for _ in reqs]
-        alive = list(range(len(reqs)))
+        seq_parse = ec.with_budget(ec.CASE_BUDGET_S, lambda: sequential_parse(P, gr, reqs), None) or {}
         budget = [rng.randint(0, 4) for _ in reqs]  # abandon after this many items
-        while alive:
-            t = rng.choice(alive)
-            if len(collected[t]) >= budget[t]:
-                alive.remove(t)   # abandoned part-way
-                continue
-            try:
-                collected[t].append(lib.match_dump(P, next(gens[t])))
-            except StopIteration:
-                alive.remove(t)
-            except (P.ParseError, P.GrammarError):
-                alive.remove(t)
-        del gens
-        for q in reqs:
-            got = c08.request(P, rules[0], *q)
-            gen_evals += 1
-            if got != seq[q] and rep < 6:
+        order_seed = rng.randrange(1 << 30)
+        probs, n_ev = generator_case(P, gr, reqs, budget, order_seed, seq, seq_parse)
+        gen_evals += n_ev
+        for kind, msg in probs:
+            if rep < 7:
                 found = True
                 rep += 1
-                ctx.report("after interleaved/abandoned generators: %s(%r) got %r, sequential %r" % (q[0], q[1], got[:100], seq[q][:100]),
-                           {"kind": "generators", "grammar": gr, "requests": reqs, "abandon_after": budget}, key="gens:" + lib.digest([gr, reqs, budget]))
-            # the prefix each generator did produce must be a prefix of the sequential listing
-        for q, col in zip(reqs, collected):
-            full = seq[q]
-            if col and full.startswith("ok"):
-                want = [x.strip() for x in full.split("|")[1:]]
-                gotp = [x[2:].strip() for x in col]
-                if gotp != want[: len(gotp)] and rep < 7:
-                    found = True
-                    rep += 1
-                    ctx.report("interleaved generator yielded %r, sequential listing starts %r" % (gotp[:2], want[:2]),
-                               {"kind": "generators-prefix", "grammar": gr, "requests": reqs}, key="gensp:" + lib.digest([gr, reqs]))
+                ctx.report(msg, {"kind": kind, "grammar": gr, "requests": reqs, "abandon_after": budget, "order_seed": order_seed},
+                           key=kind + ":" + lib.digest([gr, reqs, budget, order_seed]))
     phase['generators_s'] = round(time.time() - t0, 1)
     t0 = time.time()
     outs = lib.run_driver_parallel(blocks)
@@ -304,11 +339,16 @@ def run(ctx):
 
 def replay(rp):
     P = lib.import_repo()
+    gr = [tuple(r) for r in rp["grammar"]]
+    reqs = [tuple(q) for q in rp["requests"]]
+    if rp["kind"].startswith("generators"):
+        probs, _n = generator_case(P, gr, reqs, rp["abandon_after"], rp.get("order_seed", 0), sequential(P, gr, reqs), sequential_parse(P, gr, reqs))
+        for kind, msg in probs:
+            print(msg)
+        return 1 if probs else 0
     if rp["kind"] != "schedule":
         print(rp.get("what"))
         return 1
-    gr = [tuple(r) for r in rp["grammar"]]
-    reqs = [tuple(q) for q in rp["requests"]]
     seq = sequential(P, gr, reqs)
     bad = 0
     for seed in range(200):
